@@ -300,4 +300,14 @@ func (g *gen) negTables() {
 	g.negFeature("ft_sasl", "sasl.go", "newSASL", bits, nsConsts)
 	g.negFeature("ft_bind", "bind.go", "bind", bits, nsConsts)
 	g.negFeature("ft_bidi", "s2s/bidi.go", "Bidi", bits, nsConsts)
+	// the name space of the element by which the initiator selects bidi
+	// (XEP-0288): it differs from the name space under which the feature is
+	// advertised, and the receiving side looks selections up by name space
+	if f := g.parse("s2s/bidi.go"); f != nil {
+		v, ok := negConsts(f)["NSBidi"]
+		if !ok {
+			g.errs = append(g.errs, "s2s/bidi.go: const NSBidi not found")
+		}
+		g.p("Definition ns_bidi_select : bytes := hex \"%s\". (* %s *)\n", hexOf([]byte(v)), v)
+	}
 }
